@@ -134,8 +134,13 @@ def run(ctx):
         two = ctx.rng.choice([[False] * n, [True] * n, [ctx.rng.random() < 0.5 for _ in range(n)], [ctx.rng.random() < 0.5 for _ in range(n)]])
         names = ["two-sided" if t_ else "greater" for t_ in two]
         alts_arg = names[0] if (len(set(two)) == 1 and ctx.rng.random() < 0.6) else names
+        # the same statistics in units where their magnitude is extreme (squares / products of them leave the double range)
+        sc = ctx.rng.choice([1, 1, 1, 1e-200, 1e160, 2.0 ** -600, 2.0 ** 600, 1e-320])
+        if sc != 1:
+            kinds = [ctx.rng.choice(["np", "float"]) for _ in range(n)]; ctx.count("statistics-of-extreme-magnitude")
+        tv_i = [[v * sc for v in r_] for r_ in tv] if sc != 1 else tv; ts_i = [v * sc for v in ts] if sc != 1 else ts
         for which in ("sim_npc", "westfall_young"):
-            e, tests, _ = scripted_experiment(tv, ts, kinds)
+            e, tests, _ = scripted_experiment(tv_i, ts_i, kinds)
             if which == "sim_npc":
                 r = guarded(npc.sim_npc, e, tests, combine="tippett", reps=reps)
                 raw = None if r[0] != "ok" else [r[1][2][c] for c in range(n)]
@@ -144,7 +149,7 @@ def run(ctx):
                 r = guarded(npc.westfall_young, e, tests, method=meth, alternatives=alts_arg, reps=reps)
                 raw = None if r[0] != "ok" else [r[1][1][c] for c in range(n)]
             wy = which == "westfall_young"
-            det = {"call": which, "observed": ts, "table": tv, "reps": reps, "return_kinds": kinds, "alternative": (alts_arg if wy else "greater")}
+            det = {"call": which, "observed": ts, "table": tv, "all_statistics_multiplied_by": sc, "reps": reps, "return_kinds": kinds, "alternative": (alts_arg if wy else "greater")}
             if wy:
                 det["method"] = meth; ctx.count("westfall_young-alternatives-" + ("string" if isinstance(alts_arg, str) else ("mixed-list" if len(set(two)) > 1 else "list")))
             ctx.case((which, tuple(map(tuple, tv)), tuple(ts), str(alts_arg) if wy else ""), True); ctx.count(which + "-partial-p")
